@@ -34,7 +34,44 @@ LargeWord ProgCounter(void) { return PCs[ActPC]; }
 LargeWord EProgCounter(void) { return PCs[ActPC] + Phases[ActPC]; }
 void      BookKeeping(void) { g_bk_calls++; }
 static int verif_snprintf0(char* d, size_t n) { if (n) d[0] = 0; return 0; }
+#ifdef VERIF_SHARED
+/* SHARED: the number formatting calls and the share-file line are observed by variadic monitors that record the value,
+ * the notation and the name; the text itself is a one-letter token */
+#include <stdarg.h>
+static int g_sh_vals, g_sh_style[3], g_sh_lines, g_sh_linekind[3], g_sh_bad; static unsigned long long g_sh_val[3]; static char const* g_sh_name[3]; static char const* g_sh_txt[3];
+static int mon_share_snprintf(char* d, size_t n, char const* fmt, ...) {
+    va_list ap; int style = 0; unsigned long long v = 0;
+    va_start(ap, fmt);
+    if (fmt[0] == '%' && fmt[1] == 's' && fmt[2] == '%') { (void)va_arg(ap, char const*); v = va_arg(ap, LargeWord); style = 1; }        /* "%s%lx"   Motorola: $hex  */
+    else if (fmt[0] == '0' && fmt[1] == 'x') { v = va_arg(ap, LargeWord); style = 2; }                                                 /* "0x%lx"   C              */
+    else if (fmt[0] == '%' && fmt[1] != 's' && fmt[1] != '0') { v = va_arg(ap, LargeWord); (void)va_arg(ap, char const*); style = 3; }   /* "%lx%s"   Intel: hexh    */
+    else if (fmt[0] == 'x') { v = va_arg(ap, LargeWord); style = 4; }                                                                    /* "x'%lx'"  IBM            */
+    else if (fmt[0] == '%' && fmt[1] == '0') { style = 5; }                                                                              /* "%0.17g"  float          */
+    else if (fmt[0] == '(' || fmt[0] == '/' || fmt[0] == ';') { style = 0; }                                                             /* comment                  */
+    else g_sh_bad++;
+    va_end(ap);
+    if (style >= 1 && style <= 4 && g_sh_vals >= 0 && g_sh_vals < 3) { g_sh_style[g_sh_vals] = style; g_sh_val[g_sh_vals] = v; g_sh_vals++; }
+    if (n >= 2) { d[0] = (char)(style ? 'V' : 'c'); d[1] = 0; }
+    return 1;
+}
+static int mon_share_fprintf(FILE* f, char const* fmt, ...) {
+    va_list ap; (void)f;
+    va_start(ap, fmt);
+    if (g_sh_lines >= 0 && g_sh_lines < 3) {
+        int k = (fmt[0] == '#') ? 2 : (fmt[0] == '%' && fmt[2] == ' ' && fmt[3] == '=') ? 1 : (fmt[0] == '%' && fmt[2] == ' ' && fmt[3] == '%') ? 3 : (fmt[0] == '%' && fmt[2] == '\n') ? 9 : 0;
+        g_sh_linekind[g_sh_lines] = k;
+        if (k >= 1 && k <= 3) { g_sh_name[g_sh_lines] = va_arg(ap, char const*); g_sh_txt[g_sh_lines] = va_arg(ap, char const*); }
+        if (k == 0) g_sh_bad++;
+    }
+    g_sh_lines++;
+    va_end(ap);
+    return 1;
+}
+#define as_snprintf mon_share_snprintf
+#define fprintf mon_share_fprintf
+#else
 #define as_snprintf(d, n, ...) verif_snprintf0((d), (n))
+#endif
 
 /* memset monitor (ALIGN n,fill): the fill must stay inside the code buffer; the bytes
  * themselves are not modelled (a symbolic-length memset makes the obligation intractable) */
@@ -50,6 +87,9 @@ static void* verif_memset(void* p, int v, size_t n) {
 #include <string.h>
 #define memset(p, v, n) verif_memset((p), (v), (n))
 #include "asmallg.c" /* the real /repo/asmallg.c */
+#ifdef VERIF_SHARED
+#undef fprintf
+#endif
 #undef as_snprintf
 #undef memset
 
@@ -371,5 +411,47 @@ void h_user_diagnostics(void) {
         VPOST(g_wes_calls == 0 && g_err_cnt == ec + 1, "C02: a malformed WARNING/ERROR/FATAL/MESSAGE statement is itself reported (one error), never silently dropped");
         VREACH("malformed");
     }
+}
+#endif
+
+/* ---- C19: SHARED writes, for every argument that names a defined symbol, one line "name <value>" in the syntax of the
+ * share-file mode (-p Pascal: $hex, -c C: 0xhex, -a assembler: the target's notation), with the value the symbol table
+ * holds at this point, in argument order; an undefined name writes nothing (LookupSymbol reports it). ---- */
+#ifdef VERIF_SHARED
+static int g_lk_calls, g_lk_typ[3]; static long long g_lk_val[3]; static char const* g_lk_name[3];
+void LookupSymbol(const struct sStrComp* pName, TempResult* pValue, Boolean WantRelocs, TempType ReqType) {
+    int i = g_lk_calls++; (void)WantRelocs; (void)ReqType;
+    if (i < 0 || i > 2) i = 2;
+    g_lk_name[i] = pName->str.p_str;
+    if (g_lk_typ[i] == TempInt) { pValue->Typ = TempInt; pValue->Contents.Int = g_lk_val[i]; } else pValue->Typ = TempNone;
+}
+Boolean IsSymbolChangeable(const struct sStrComp* pName) { Boolean b; (void)pName; VND(b, uchar); return (Boolean)(b & 1); }
+void ChkIO(tErrorNum ErrNo) { (void)ErrNo; }
+/* strmaxprep by its contract (str_strmaxprep): the text tokens here are one letter, the prefix is not part of what is checked */
+void strmaxprep(char* d, char const* s2, size_t max) { (void)s2; (void)max; d[0] = d[0]; }
+char const* GetIntConstMotoPrefix(unsigned Radix) { (void)Radix; return "$"; }
+char const* GetIntConstIntelSuffix(unsigned Radix) { (void)Radix; return "h"; }
+void h_CodeSHARED(void) {
+    static tStrComp a[3]; static char t[3][2], comm[2]; int i, want = 0, w[3]; static FILE fobj;
+    for (i = 0; i < 3; i++) { t[i][0] = (char)('a' + i); t[i][1] = 0; a[i].str.p_str = t[i]; a[i].str.capacity = 2; }
+    ArgStr = a; VND(ArgCnt, int); VASSUME(ArgCnt >= 1 && ArgCnt <= 2);
+    comm[0] = 0; CommPart.str.p_str = comm; ShareFile = &fobj;
+    VND(ShareMode, uchar); VASSUME(ShareMode >= 1 && ShareMode <= 3);
+    { int m; VND(m, int); VASSUME(m == eIntConstModeIntel || m == eIntConstModeMoto || m == eIntConstModeC || m == eIntConstModeIBM); IntConstMode = (tIntConstMode)m; }
+    for (i = 0; i < 3; i++) { VND(g_lk_typ[i], int); VASSUME(g_lk_typ[i] == TempInt || g_lk_typ[i] == TempNone); VND(g_lk_val[i], i64); }
+    g_lk_calls = 0; g_sh_vals = 0; g_sh_lines = 0; g_sh_bad = 0;
+    for (i = 1; i <= ArgCnt; i++) if (g_lk_typ[i - 1] == TempInt) w[want++] = i;
+    CodeSHARED(0);
+    VPOST(g_sh_bad == 0, "harness: every print format on the path is known to the monitor");
+    VPOST(g_lk_calls == ArgCnt && g_sh_lines == want && g_sh_vals == want, "C19: SHARED writes exactly one line per argument that names a defined symbol");
+    for (i = 0; i < 2; i++) if (i < want) {
+        int style = ShareMode == 1 ? 1 : ShareMode == 2 ? 2 : (IntConstMode == eIntConstModeMoto ? 1 : IntConstMode == eIntConstModeC ? 2 : IntConstMode == eIntConstModeIntel ? 3 : 4);
+        VPOST(g_sh_name[i] == t[w[i]] && g_lk_name[w[i] - 1] == t[w[i]], "C19: the share-file line carries the argument's name, in argument order");
+        VPOST(g_sh_val[i] == (unsigned long long)g_lk_val[w[i] - 1], "C19: the share-file line carries the value the symbol table holds for that symbol");
+        VPOST(g_sh_style[i] == style && g_sh_linekind[i] == ShareMode, "C19: value and line are written in the syntax of the share-file mode (Pascal $hex / C 0xhex / assembler: the target's notation)");
+    }
+    VREACH("end");
+    if (want == 2) VREACH("two lines");
+    if (want == 1 && ArgCnt == 2 && g_lk_typ[0] != TempInt) VREACH("undefined first");
 }
 #endif
